@@ -3,6 +3,7 @@
 package regprocessor
 
 import (
+	"net"
 	"time"
 
 	zmq "github.com/pebbe/zmq4"
@@ -40,5 +41,27 @@ func VerifNewProcessor(sel *phantoms.PhantomIPSelector) *RegProcessor {
 	_ = p.AddTransport(pb.TransportType_Min, min.Transport{})
 	_ = p.AddTransport(pb.TransportType_Obfs4, obfs4.Transport{})
 	_ = p.AddTransport(pb.TransportType_Prefix, prefix.DefaultSet())
+	return p
+}
+
+// VerifNewProcessorOverrides is VerifNewProcessor with subnet overrides enforced, shaped like the shipped
+// cmd/registration-server/reg_config.toml (every registration selected for override, one excluded subnet).
+func VerifNewProcessorOverrides(sel *phantoms.PhantomIPSelector) *RegProcessor {
+	p := VerifNewProcessor(sel)
+	mk := func(cidr, tr string, pid prefix.PrefixID, port uint32) Subnet {
+		_, n, err := net.ParseCIDR(cidr)
+		if err != nil {
+			panic(err)
+		}
+		return Subnet{CIDR: Ipnet{n}, Weight: 1, Transport: tr, PrefixId: pid, Port: port}
+	}
+	p.enforceSubnetOverrides = true
+	p.minOverrideSubnets = []Subnet{mk("198.51.100.0/28", "Min_Transport", 0, 0)}
+	p.prefixOverrideSubnets = []Subnet{mk("203.0.113.0/28", "Prefix_Transport", prefix.HTTPResp, 8080)}
+	p.minOverrideSubnetsCumulativeWeights = processOverrideSubnetsWeights(p.minOverrideSubnets)
+	p.prefixOverrideSubnetsCumulativeWeights = processOverrideSubnetsWeights(p.prefixOverrideSubnets)
+	p.exclusionsFromOverride = []Subnet{mk("192.122.190.0/28", "", 0, 0)}
+	p.prcntMinRegsToOverride = 100
+	p.prcntPrefixRegsToOverride = 100
 	return p
 }
